@@ -11,12 +11,12 @@ Definition trans_on {A} (cmp : A -> A -> comparison) (P : A -> Prop) : Prop :=
 Lemma kway_merge_spec_l : forall (A : Type) (cmp : A -> A -> comparison) (P : A -> Prop),
   total_on cmp P -> trans_on cmp P ->
   forall runs, Forall P (concat runs) -> Forall (fun r => sortedb cmp r = true) runs ->
-  StronglySorted (fun a b => leb cmp a b = true) (merge_sorted_runs cmp runs)
-  /\ Permutation (merge_sorted_runs cmp runs) (concat runs).
+  StronglySorted (fun a b => leb cmp a b = true) (merge_sorted_runs_pre cmp runs)
+  /\ Permutation (merge_sorted_runs_pre cmp runs) (concat runs).
 Proof. intros A cmp P Ht Hr runs HP Hs. exact (merge_sorted_runs_spec cmp P Ht Hr runs HP Hs). Qed.
 
 Lemma kway_merge_single_l : forall (A : Type) (cmp : A -> A -> comparison) (r : list A),
-  merge_sorted_runs cmp (r :: nil) = r /\ merge_sorted_runs cmp nil = nil.
+  merge_sorted_runs_pre cmp (r :: nil) = r /\ merge_sorted_runs_pre cmp nil = nil.
 Proof. intros. split; reflexivity. Qed.
 
 Lemma kway_merge_run_order_l : forall (A : Type) (cmp : A -> A -> comparison) (P : A -> Prop),
@@ -32,7 +32,7 @@ Lemma kway_merge_stable_l : forall (A : Type) (cmp : A -> A -> comparison) (P : 
   total_on cmp P -> trans_on cmp P ->
   forall runs, Forall P (concat runs) -> Forall (fun r => sortedb cmp r = true) runs ->
   k_cross_ties cmp runs = false ->
-  merge_sorted_runs cmp runs = isort cmp (concat runs).
+  merge_sorted_runs_pre cmp runs = isort cmp (concat runs).
 Proof.
   intros A cmp P Ht Hr runs HP Hs Hk.
   apply (merge_sorted_runs_stable cmp P Ht Hr); auto. apply k_cross_ties_false. exact Hk.
@@ -42,15 +42,17 @@ Definition zcmp1 (a b : Z * Z) : comparison := Z.compare (fst a) (fst b).
 Definition k1_witness : list (list (Z * Z)) :=
   map (fun j => [(1%Z, j); (1%Z, (j + 10)%Z)]) [0%Z; 1%Z; 2%Z; 3%Z; 4%Z].
 
-Lemma kway_merge_stable_refuted_l : exists runs : list (list (Z * Z)),
+Lemma kway_merge_pre_refuted_l : exists runs : list (list (Z * Z)),
   Forall (fun r => sortedb zcmp1 r = true) runs /\
-  sortedb zcmp1 (merge_sorted_runs zcmp1 runs) = true /\
-  merge_sorted_runs zcmp1 runs <> isort zcmp1 (concat runs).
+  sortedb zcmp1 (merge_sorted_runs_pre zcmp1 runs) = true /\
+  merge_sorted_runs_pre zcmp1 runs <> isort zcmp1 (concat runs) /\
+  merge_sorted_runs zcmp1 runs = isort zcmp1 (concat runs).
 Proof.
-  exists k1_witness. split; [|split].
+  exists k1_witness. split; [|split; [|split]].
   - repeat constructor.
   - vm_compute. reflexivity.
   - vm_compute. discriminate.
+  - vm_compute. reflexivity.
 Qed.
 
 Lemma zcmp1_total : total_on zcmp1 (fun _ => True).
